@@ -29,6 +29,10 @@ TRUSTED_BASE = [
     "correspondence harness tools/props/c07.py (recipes, NumPy reference on densified operands), tools/vlib.py",
 ]
 ASSUMPTIONS = [
+    "an operation whose zero-fill baseline (same recipe, format, dtype) does not return the NumPy result is outside this "
+    "property's reach for that format/dtype (missing method, NotImplementedError, C02's malformed GCXS x[None, i]); such cells "
+    "are listed under coverage.not_exercised_baseline_fails and are not judged — EXCEPT when the operation returns a wrong "
+    "value without raising (then it is reported, e.g. D30)",
     "element values are tokens: one NaN bit pattern; dtype promotion and float rounding are NumPy's (mean/var/std are "
     "compared with a tolerance and reported as differential_only)",
     "the stored part of every result is the subject of C01-C06/C08-C10; here the result is compared as a whole, so a "
@@ -881,7 +885,16 @@ def campaign(build, tier, seed, report, budget=1):
             lits.append(vpair(coq_str(c["op"]), vZ(kind), vlist(toks), vZ(OUT_CODE[oc])))
             meta.append((auto, i))
             hist[(c["op"], oc)] = hist.get((c["op"], oc), 0) + 1
-    tagged = build.judge("c07_matrix", IMPORTS, "matrix_case", "judge_matrix_tagged", lits)
+    try:
+        tagged = build.judge("c07_matrix", IMPORTS, "matrix_case", "judge_matrix_tagged", lits)
+    except vlib.CoqEvalError as ex:
+        # the Coq side does not build (a generated fragment / the table changed and a proof or definition broke):
+        # search with the policy-independent part of the verdict, so that a failing input is still reported
+        fb = fallback_violations(gen_cases, gens, probes)
+        if not fb:
+            raise
+        report["notes"].append("Coq judge unavailable (" + str(ex)[:200] + "); violations found by the policy-independent fallback")
+        return fb
     if len(tagged) != len(lits):
         raise vlib.CoqEvalError(f"judge_matrix_tagged returned {len(tagged)} verdicts for {len(lits)} cases")
     codes = [(k, (v - 1) // 4) for k, v in tagged if (v - 1) // 4 != 0]
@@ -967,6 +980,28 @@ def campaign(build, tier, seed, report, budget=1):
     cov["probe_tags"] = {f"{k[0]}/{k[1]}/{k[2]}": v for k, v in sorted(phist.items())}
     cov["right_up_to_sign_of_zero"] = sum(1 for auto in (False, True) for r in gens[auto][0] if r and r.get("match") == 2)
     cov["samples"] = [dict(case=cases[i], impl=gens[False][0][i]) for i in (0, len(cases) // 3, len(cases) - 1)]
+    return viol
+
+
+def fallback_violations(gen_cases, gens, probes):
+    """used only when the Coq judge cannot be built: silently wrong results and un-refused implicit coercions"""
+    viol = []
+    for auto in (False, True):
+        for c, r in zip(gen_cases[auto], gens[auto][0], strict=True):
+            oc = out_class(r)
+            if oc in ("wrong", "hang"):
+                viol.append({"property": "C07", "op": c["op"], "kind": "value",
+                             "clause": clause_for(2 if oc == "wrong" else 5, c, r),
+                             "what": CODE_TEXT[2 if oc == "wrong" else 5], "case": dict(c, auto=auto), "impl": dict(r or {}),
+                             "replay_py": replay_line(c, auto)})
+        for c, r in zip(probes, gens[auto][1], strict=True):
+            pr = PROBES[c["probe"]]
+            oc = out_class(r)
+            if (pr["kind"] == 0 and not auto and oc != "runtimeerror") or oc == "wrong":
+                viol.append({"property": "C07", "op": "probe:" + c["probe"], "kind": "value",
+                             "clause": ("coercion_not_refused:" if pr["kind"] == 0 else "probe_silently_wrong:") + c["probe"],
+                             "what": CODE_TEXT[11 if pr["kind"] == 0 else 15], "case": dict(c, auto=auto), "impl": r,
+                             "replay_py": replay_line(c, auto, probe=True)})
     return viol
 
 
